@@ -48,8 +48,25 @@ Definition returns_shared (f : nat) : bool :=
   match shared f with
   | [] => false
   | sh => match exit_of f with
-          | Some a => existsb (fun k => memb k sh) (get a (nthd ret_real f 0))
+          | Some a =>
+              (* a constructor "returns" the object: what it binds to self.<attr> counts (f_ret = result + attribute channel) *)
+              let rv := if nthd is_ctor f false
+                        then match nth_error generated_programs f with Some fd => f_ret fd | None => nthd ret_real f 0 end
+                        else nthd ret_real f 0 in
+              existsb (fun k => memb k sh) (get a rv)
           | None => true
+          end
+  end.
+(* np.empty / np.empty_like / np.ndarray(shape) hand out whatever the heap held: pyfx binds their result to the shared
+   pseudo-object `@uninit` and re-binds the name to a fresh array only after a complete, unconditional initialisation.
+   A callable whose result (or an attribute it binds) may still be that object returns values that depend on earlier,
+   unrelated calls: not repeatable. *)
+Definition returns_uninit (f : nat) : bool :=
+  match nthd uninit_params f [] with
+  | [] => false
+  | un => match exit_of f, nth_error generated_programs f with
+          | Some a, Some fd => existsb (fun k => memb k un) (get a (f_ret fd))
+          | _, _ => true
           end
   end.
 Definition counted (f k : nat) : bool :=
@@ -66,7 +83,7 @@ Definition keeps_caller_data (f : nat) : bool :=
   | Some sm => existsb (fun k => Nat.leb 1 k && Nat.ltb k (nthd n_explicit f 0)) (s_ret sm)
   | None => true
   end.
-Definition is_mutator (f : nat) : bool := match mutated f with Some [] => keeps_caller_data f || returns_shared f | _ => true end.
+Definition is_mutator (f : nat) : bool := match mutated f with Some [] => keeps_caller_data f || returns_shared f || returns_uninit f | _ => true end.
 Definition reads_global (f : nat) : bool := match summ_of f with Some sm => match s_glob sm with [] => false | _ => true end | None => true end.
 
 Definition all_ids := seq 0 (List.length names).
